@@ -37,11 +37,14 @@ def close(a, b, scale):
 def run_wellformed(c):
     model = c["model"]
     unit = model["unit"]
-    doc = G.to_text(model) if c["form"] == "text" else G.to_tree(model)
+    doc = G.to_text(model) if c["form"] in ("text", "file") else G.to_tree(model)
+    if c["form"] == "file":
+        from gen import files
+        doc = files.write(len(doc) + len(model["modules"]), doc)  # (the path is what is handed to Netlist)
     doc_before = copy.deepcopy(doc)
     try:
         nl = Netlist(doc)
-        if c["form"] != "text" and c.get("twice"):
+        if c["form"] == "tree" and c.get("twice"):
             # the same parsed tree is loaded a second time (a tool may keep the tree and build several netlists from it):
             # everything below is checked on the SECOND netlist
             if doc != doc_before:
@@ -123,7 +126,7 @@ def run_wellformed(c):
     # wire length
     by_name = {m["name"]: m for m in mods}
     centres = {m["name"]: G.exp_center(m, unit) for m in mods}
-    cls = [c["form"]] + (["tree-loaded-twice"] if c["form"] != "text" and c.get("twice") else [])
+    cls = [c["form"]] + (["tree-loaded-twice"] if c["form"] == "tree" and c.get("twice") else [])
     if model["nets"] and all(centres[n] is not None for e in model["nets"] for n in e["m"]):
         total = mpmath.mpf(0)
         for e in model["nets"]:
@@ -284,7 +287,7 @@ def run_illformed(c):
 
 @st.composite
 def well_s(draw):
-    return dict(model=draw(G.netlist_model(max_modules=6)), form=draw(st.sampled_from(["tree", "tree", "text"])), twice=draw(st.booleans()))
+    return dict(model=draw(G.netlist_model(max_modules=6)), form=draw(st.sampled_from(["tree", "tree", "text", "file"])), twice=draw(st.booleans()))
 
 
 @st.composite
@@ -296,6 +299,6 @@ def ill_s(draw):
 def subchecks():
     return [
         Sub("wellformed", run_wellformed, strategy=well_s(), n_quick=5000, n_thorough=120000, fuzz_thorough=2500,
-            required=("wire-length", "region-areas", "flat-rectangle", "centre-overridden-by-rectangles", "text", "tree", "tree-loaded-twice")),
+            required=("wire-length", "region-areas", "flat-rectangle", "centre-overridden-by-rectangles", "text", "tree", "file", "tree-loaded-twice")),
         Sub("illformed", run_illformed, strategy=ill_s(), n_quick=5000, n_thorough=120000, fuzz_thorough=2500, required=tuple(DEFECTS)),
     ]
